@@ -472,7 +472,18 @@ func genCarbonSection(t *rapid.T, suffix string) section {
 	tomlFilter(t, rf, &sb)
 	sb.WriteString("destinations = [\n")
 	for _, d := range ds {
-		fmt.Fprintf(&sb, "  '%s',\n", d.render())
+		// inside a TOML array element blanks are just blanks (options aligned in columns, a trailing blank): only the command
+		// syntax gives the double blank a meaning
+		td := d.render()
+		if rapid.IntRange(0, 2).Draw(t, "tomlspacing") == 0 {
+			toks := strings.Split(td, " ")
+			td = toks[0]
+			for _, tk := range toks[1:] {
+				td += rapid.SampledFrom([]string{" ", "  ", "   ", "    "}).Draw(t, "gap") + tk
+			}
+			td += rapid.SampledFrom([]string{"", " ", "  "}).Draw(t, "trailgap")
+		}
+		fmt.Fprintf(&sb, "  '%s',\n", td)
 	}
 	sb.WriteString("]\n")
 	cmd := "addRoute " + typ + " " + key
